@@ -19,9 +19,12 @@ SOURCE_GUARDS = [
     ("esr/fitting/test_all.py", "main"),
 ]
 
-TRANSLATORS = []
+TRANSLATORS = ["countparams"]
 IMPL = os.path.join(esrv.VERIF, "harness", "corr", "c10_impl.py")
 TRUSTED = [
+    "translator harness/translate/countparams.py: simplifier.count_params is regenerated into Gen/GenCountParams.v on every run (nested loops, the inner one "
+    "descending and left with break, store into the result array; the substring test 'a<j>' in fcn is an abstract predicate) and proved equal to the model's "
+    "count_params for every predicate, number of functions and max_param (C10_code_count_params_is_model, _spec)",
     "Coq 8.16.1 kernel + vm_compute (no native_compute)",
     "Print Assumptions: all C10 theorems closed under the global context (no axioms)",
     "hand-written model coq/Model/Optimise.v of optimise_fun's control flow (minimize, np.random.uniform, the likelihood and the NaN-on-data "
